@@ -9,6 +9,7 @@
 (* State:  obj  = [fmt |-> "sm" | "ssc", items, charts]  (Codec's representation)        *)
 (*         disk = the last text written (<<>> before the first save)                      *)
 EXTENDS Codec, NoteData, Beat, ConvertKeys
+GR == INSTANCE Grouping         \* the counting rules
 CV == INSTANCE Convert          \* the conversion rules, instantiated on code-point keys through NameOf
 
 VARIABLES obj, disk
@@ -146,6 +147,27 @@ ReadNotes(j, res) ==        \* res: the notes the library yielded, [p, n, d, c, 
   /\ j \in DOMAIN obj.charts
   /\ (obj.fmt = "ssc" => ChartHasNotes(obj.charts[j]))
   /\ res = Decode(ChartNotesText(obj, j))
+  /\ UNCHANGED svars
+(* writing a note stream into a chart through NoteData.from_notes (NoteData.tla's Encode; SM fields hold the stripped text) *)
+WriteNotes(j, notes, cols) ==
+  /\ j \in DOMAIN obj.charts
+  /\ StrictlyIncreasing(notes) /\ \A k \in DOMAIN notes : WellFormedNote(notes[k], cols)
+  /\ LET t == Encode(notes, cols) IN
+     IF obj.fmt = "sm" THEN obj' = [obj EXCEPT !.charts[j].fields[6] = Strip(t)]
+     ELSE obj' = [obj EXCEPT !.charts[j] = MPut(@, ChartSel(@, K_NOTES), t)]
+  /\ UNCHANGED disk
+(* counting the steps / jumps / hands / mines of a single-player chart with the default arguments (Grouping.tla) *)
+AsStream(ns) == [i \in DOMAIN ns |-> [n |-> ns[i].n, d |-> ns[i].d, c |-> ns[i].c, t |-> ns[i].t, k |-> ns[i].k]]
+CountInDomain(o, j) ==          \* Grouping.tla speaks about single-player streams
+  /\ j \in DOMAIN o.charts /\ (o.fmt = "ssc" => ChartHasNotes(o.charts[j]))
+  /\ \A i \in DOMAIN Decode(ChartNotesText(o, j)) : Decode(ChartNotesText(o, j))[i].p = 0
+CountNotes(j, res) ==
+  /\ CountInDomain(obj, j)
+  /\ LET dn == Decode(ChartNotesText(obj, j))  ns == AsStream(dn) IN
+     /\ res.steps = GR!CountSteps(ns, GR!DefaultCountTypes, "all", 1)
+     /\ res.jumps = GR!CountSteps(ns, GR!DefaultCountTypes, "all", 2)
+     /\ res.hands = GR!CountSteps(ns, GR!DefaultCountTypes, "all", 3)
+     /\ res.mines = GR!CountMines(ns)
   /\ UNCHANGED svars
 K_BPMS == <<66, 80, 77, 83>>
 K_DELAYS == <<68, 69, 76, 65, 89, 83>>
